@@ -67,6 +67,10 @@ pub fn diff(c: &SeqCase, opts: DiffOpts) -> DiffOut {
   match r.outcome.kind {
     Done | Quiescent => {}
     ref k => {
+      if let Some(p) = crate_panic(&r.outcome) {
+        rep.fail = Some(format!("{} | {}", p, render(c, &r)));
+        return DiffOut { rep, real: Some(r), model: Some(first) };
+      }
       // hangs / deadlocks / endless producers are C07's and C06's findings
       rep.classes.push(format!("aborted:{:?}", k));
       return DiffOut { rep, real: Some(r), model: Some(first) };
